@@ -53,11 +53,11 @@ def new_value(rng, kw):
     if kw == "description":
         return rng.choice(["d", "other"])
     if kw == "uniqueItems":
-        return True
+        return rng.choice([True, True, False])          # the constructor default too, written explicitly
     if kw == "required":
         return rng.sample(["a", "b", "class", "zz"], rng.randint(1, 2))
     if kw in ("additionalItems", "additionalProperties"):
-        return rng.choice([False, sub_spec(rng)])
+        return rng.choice([False, True, sub_spec(rng)])  # True = the constructor default, written explicitly (re-opens a closed parent)
     if kw in ("contains", "propertyNames"):
         return sub_spec(rng) if kw == "contains" else {"k": "String", "kw": {"maxLength": rng.choice([1, 2, 5])}}
     if kw == "items":
